@@ -93,6 +93,26 @@ def run(ctx) -> None:
     from .common import Relabel
     ctx.rule("R01.13", "the library's own context managers around the sources never suppress an exception (R06.3, shared)")
     c06._aexit_falsy(Relabel(ctx, "R01.13"))
+    # items pass through untouched: no tool probes an item for awaitability (awaitify only ever wraps user
+    # callables, R03.9) and the library's default reduction builds a new value (no in-place operator on an item)
+    from . import c03
+    from .common import real_units
+    ctx.rule("R01.16", "awaitify wraps user callables only: items of awaitable type are never awaited by the library (R03.9, shared)")
+    tool_shorts = set(PASS_THROUGH + TRANSFORMING)
+    for u_ in real_units(ctx):
+        if ctx.pkg.canonical(u_) in tool_shorts or (u_.parent is not None and ctx.pkg.canonical(u_.parent) in tool_shorts):
+            for n_ in cfg_of(u_).nodes:
+                if n_.kind == "call" and not n_.tag and c03._is_awaitify(ctx.vals.expr(u_, n_.ast.func, n_)):
+                    ctx.count("tool_awaitify_sites")
+                    c03.awaitify_argument(ctx, "R01.16", u_, n_)
+    ctx.rule("R01.17", "the default reduction of accumulate returns a new object: no augmented assignment on its arguments")
+    if ctx.pkg.has_unit("itertools.add"):
+        add = ctx.unit("itertools.add")
+        aug = [x for x in own_nodes(add.node) if isinstance(x, ast.AugAssign) and isinstance(x.target, ast.Name)
+               and x.target.id in add.param_names()]
+        ctx.check(not aug, "R01.17", add, aug[0] if aug else "add",
+                  "the default reduction computes `x + y` (an in-place `x += y` would mutate the running total the consumer already holds)",
+                  line=aug[0].lineno if aug else None)
     from . import tooltables
     tooltables.tool_tables(ctx, "R01.12", tooltables.ITEMS_AND_END)
     from . import objmodel
@@ -615,8 +635,12 @@ def r01_4(ctx) -> None:
             inner = it
             if isinstance(it, ast.Call) and norm(it.func).split(".")[-1] == "enumerate" and it.args:
                 inner = it.args[0]
+            if isinstance(inner, ast.Subscript) and isinstance(inner.slice, ast.Slice) and (
+                    inner.slice.step is None or (isinstance(inner.slice.step, ast.Constant) and isinstance(inner.slice.step.value, int)
+                                                 and inner.slice.step.value > 0)):
+                inner = inner.value  # a forward slice keeps the order (which sources take part is the tables' matter)
             ok = isinstance(inner, ast.Name)
-            ctx.check(ok, "R01.4", u, it, "the sources are visited in argument order (bare container or enumerate of it)"
+            ctx.check(ok, "R01.4", u, it, "the sources are visited in argument order (bare container, a forward slice or enumerate of it)"
                       if ok else f"the sources are visited through `{norm(it)}`, not in plain argument order", node=n)
 
 
